@@ -300,7 +300,7 @@ func (g *progGen) coll(f focus, depth int, top bool) (string, focus) {
 		return fmt.Sprintf("%s[%s]", wrapIfOp(b), idx), bf
 	case 8:
 		b, _ := g.coll(f, depth-1, top)
-		fn := pick(g.r, []string{"children()", "descendants()", "children().children()", "descendants().take(5)"})
+		fn := pick(g.r, []string{"children()", "descendants()", "children().children()", "descendants().take(5)", "descendants().distinct()", "descendants().distinct().take(3)", "children().children().distinct().first()"})
 		return wrapIfOp(b) + "." + fn, focus{nil, kUnknown, true}
 	case 9:
 		a, af := g.coll(f, depth-1, top)
